@@ -301,6 +301,11 @@ LIB['c.__builtin_huge_valf'] = c_inf
 @lib('c.__assert_fail')
 def c_assert_fail(ex, args, kwargs, node, st):
     """assert(): release builds compile it out, here it must be *proved* (DESIGN 3.1)."""
+    if ex.mode == 'run':
+        # production builds define NDEBUG: the assert is compiled out; record and continue
+        ex.assert_failures = getattr(ex, 'assert_failures', [])
+        ex.assert_failures.append((getattr(node, 'lineno', 0), args[0] if args else ''))
+        return None
     ex.oblige('assert', False, st, node, 'C assert(%s)' % (args[0] if args and isinstance(args[0], str) else ''))
     if not ex.guards:
         raise PathEnd()
